@@ -135,8 +135,40 @@ theorem expectNum_safe {N : Nat} (last : Nat) (ts : List LTok) (h : LinesOk N ts
 
 /-! ## the productions -/
 
+/-! ### the lines kept inside parsed nodes (cited later by errors of the elaboration stage) -/
+
+/-- a type expression keeps the line of every user-type name -/
+def TyOk (N : Nat) : PTy → Prop
+  | .named _ l => InB N l
+  | .arr t _ => TyOk N t
+  | .dyn t => TyOk N t
+  | .opt t => TyOk N t
+  | _ => True
+
+def FieldOk (N : Nat) (f : PField) : Prop := InB N f.line ∧ TyOk N f.ty
+
+/-- every line a declaration carries for later diagnostics is a line of the source -/
+def DeclOk (N : Nat) : PDecl → Prop
+  | .struct _ fs _ => ∀ f ∈ fs, FieldOk N f
+  | .enum _ items l => InB N l ∧ ∀ it ∈ items, InB N it.2.2
+  | .service _ _ ms l => InB N l ∧ ∀ m ∈ ms, InB N m.line
+  | .mod _ l => InB N l
+  | _ => True
+
+def FileOk (N : Nat) (pf : PFile) : Prop := InB N pf.versionLine ∧ ∀ d ∈ pf.decls, DeclOk N d
+
+theorem numericType_ok (s : String) (t : PTy) (h : numericType s = some t) (N : Nat) : TyOk N t := by
+  unfold numericType at h
+  split at h
+  · split at h
+    · simp only [Option.some.injEq] at h
+      subst h
+      split <;> trivial
+    · cases h
+  · cases h
+
 theorem parseType_safe {N : Nat} : ∀ (f last : Nat) (ts : List LTok), LinesOk N ts → InB N last →
-    Safe N (fun _ => True) (parseType f last ts) := by
+    Safe N (TyOk N) (parseType f last ts) := by
   intro f
   induction f with
   | zero => intro last ts h hl; exact Safe.error (lineOf_ok h hl)
@@ -146,10 +178,10 @@ theorem parseType_safe {N : Nat} : ∀ (f last : Nat) (ts : List LTok), LinesOk 
     split
     · rename_i l r
       apply Safe.bind (ih l r h.tail h.head)
-      intro t r1 hr1 _
+      intro t r1 hr1 ht
       dsimp only
       split
-      · exact Safe.ok hr1.tail trivial
+      · exact Safe.ok hr1.tail ht
       · rename_i l2 r2
         apply Safe.bind (expectNum_safe l2 r2 hr1.tail hr1.head)
         intro n r3 hr3 _
@@ -157,27 +189,30 @@ theorem parseType_safe {N : Nat} : ∀ (f last : Nat) (ts : List LTok), LinesOk 
         apply Safe.bind (expectSym_safe ']' l2 r3 hr3 hr1.head)
         intro _ r4 hr4 _
         dsimp only
-        exact Safe.ok hr4 trivial
+        exact Safe.ok hr4 ht
       · exact Safe.error (lineOf_ok hr1 h.head)
     · rename_i s l r
       split
       · split
         · rename_i l1 r1
           apply Safe.bind (ih l1 r1 h.tail.tail h.tail.head)
-          intro t r2 hr2 _
+          intro t r2 hr2 ht
           dsimp only
           apply Safe.bind (expectSym_safe ']' l1 r2 hr2 h.tail.head)
           intro _ r3 hr3 _
           dsimp only
-          exact Safe.ok hr3 trivial
-        · exact Safe.ok h.tail trivial
+          exact Safe.ok hr3 ht
+        · exact Safe.ok h.tail h.head
       · split
         · exact Safe.ok h.tail trivial
         · split
           · exact Safe.ok h.tail trivial
           · split
             · exact Safe.ok h.tail trivial
-            · split <;> exact Safe.ok h.tail trivial
+            · split
+              · rename_i t ht
+                exact Safe.ok h.tail (numericType_ok s t ht N)
+              · exact Safe.ok h.tail h.head
     · exact Safe.error (lineOf_ok h hl)
 
 mutual
@@ -252,7 +287,7 @@ theorem parseParams_safe {N : Nat} (vf : Nat) : ∀ (g last : Nat) (ts : List LT
     · exact Safe.ok h trivial
 
 theorem parseFields_safe {N : Nat} (vf : Nat) : ∀ (g last : Nat) (ts : List LTok), LinesOk N ts → InB N last →
-    Safe N (fun _ => True) (parseFields vf g last ts) := by
+    Safe N (fun fs => ∀ f ∈ fs, FieldOk N f) (parseFields vf g last ts) := by
   intro g
   induction g with
   | zero => intro last ts h hl; exact Safe.error (lineOf_ok h hl)
@@ -260,7 +295,7 @@ theorem parseFields_safe {N : Nat} (vf : Nat) : ∀ (g last : Nat) (ts : List LT
     intro last ts h hl
     unfold parseFields
     split
-    · exact Safe.ok h trivial
+    · exact Safe.ok h (by simp)
     · apply Safe.bind (expectIdent_safe last ts h hl)
       intro p r1 hr1 hp
       obtain ⟨name, l⟩ := p
@@ -275,7 +310,7 @@ theorem parseFields_safe {N : Nat} (vf : Nat) : ∀ (g last : Nat) (ts : List LT
       intro _ r4 hr4 _
       dsimp only
       apply Safe.bind (parseType_safe vf l r4 hr4 hp)
-      intro ty r5 hr5 _
+      intro ty r5 hr5 hty
       dsimp only
       apply Safe.bind (parseParams_safe vf _ l _ (skipSym_ok '|' hr5) hp)
       intro ps r7 hr7 _
@@ -284,9 +319,13 @@ theorem parseFields_safe {N : Nat} (vf : Nat) : ∀ (g last : Nat) (ts : List LT
       intro _ r8 hr8 _
       dsimp only
       apply Safe.bind (ih l r8 hr8 hp)
-      intro fs r9 hr9 _
+      intro fs r9 hr9 hfs
       dsimp only
-      exact Safe.ok hr9 trivial
+      exact Safe.ok hr9 (by
+        intro x hx
+        rcases List.mem_cons.mp hx with rfl | hx
+        · exact ⟨hp, hty⟩
+        · exact hfs x hx)
 
 theorem parseEnumItems_safe {N : Nat} (vf : Nat) : ∀ (g last : Nat) (ts : List LTok), LinesOk N ts → InB N last →
     Safe N (fun es => ∀ x ∈ es, InB N x.2.2) (parseEnumItems vf g last ts) := by
@@ -393,7 +432,7 @@ theorem parseImplItems_safe {N : Nat} (vf : Nat) : ∀ (g last : Nat) (ts : List
       exact Safe.ok hr5 trivial
 
 theorem parseMethods_safe {N : Nat} : ∀ (g last : Nat) (ts : List LTok), LinesOk N ts → InB N last →
-    Safe N (fun _ => True) (parseMethods g last ts) := by
+    Safe N (fun ms => ∀ m ∈ ms, InB N m.line) (parseMethods g last ts) := by
   intro g
   induction g with
   | zero => intro last ts h hl; exact Safe.error (lineOf_ok h hl)
@@ -401,7 +440,7 @@ theorem parseMethods_safe {N : Nat} : ∀ (g last : Nat) (ts : List LTok), Lines
     intro last ts h hl
     unfold parseMethods
     split
-    · exact Safe.ok h trivial
+    · exact Safe.ok h (by simp)
     · apply Safe.bind (expectKw_safe "method" last ts h hl)
       intro l r0 hr0 hlb
       dsimp only
@@ -433,9 +472,13 @@ theorem parseMethods_safe {N : Nat} : ∀ (g last : Nat) (ts : List LTok), Lines
       intro _ r9 hr9 _
       dsimp only
       apply Safe.bind (ih l r9 hr9 hlb)
-      intro ms r10 hr10 _
+      intro ms r10 hr10 hms
       dsimp only
-      exact Safe.ok hr10 trivial
+      exact Safe.ok hr10 (by
+        intro x hx
+        rcases List.mem_cons.mp hx with rfl | hx
+        · exact hlb
+        · exact hms x hx)
 
 theorem parseModPath_safe {N : Nat} : ∀ (g last : Nat) (ts : List LTok), LinesOk N ts → InB N last →
     Safe N (fun _ => True) (parseModPath g last ts) := by
@@ -458,7 +501,7 @@ theorem parseModPath_safe {N : Nat} : ∀ (g last : Nat) (ts : List LTok), Lines
     · exact Safe.ok hr1 trivial
 
 theorem parseDecl_safe {N : Nat} (last : Nat) (ts : List LTok) (h : LinesOk N ts) (hl : InB N last) :
-    Safe N (fun _ => True) (parseDecl last ts) := by
+    Safe N (DeclOk N) (parseDecl last ts) := by
   unfold parseDecl
   split
   · -- struct
@@ -470,14 +513,14 @@ theorem parseDecl_safe {N : Nat} (last : Nat) (ts : List LTok) (h : LinesOk N ts
     intro _ r2 hr2 _
     dsimp only
     apply Safe.bind (parseFields_safe _ _ l r2 hr2 h.head)
-    intro fs r3 hr3 _
+    intro fs r3 hr3 hfs
     dsimp only
     split
     · exact Safe.error (lineOf_ok hr3 h.head)
     · apply Safe.bind (expectSym_safe '}' l r3 hr3 h.head)
       intro _ r4 hr4 _
       dsimp only
-      exact Safe.ok hr4 trivial
+      exact Safe.ok hr4 hfs
   · -- enum
     rename_i l r
     apply Safe.bind (expectIdent_safe l r h.tail h.head)
@@ -487,12 +530,12 @@ theorem parseDecl_safe {N : Nat} (last : Nat) (ts : List LTok) (h : LinesOk N ts
     intro _ r2 hr2 _
     dsimp only
     apply Safe.bind (parseEnumItems_safe _ _ l r2 hr2 h.head)
-    intro es r3 hr3 _
+    intro es r3 hr3 hes
     dsimp only
     apply Safe.bind (expectSym_safe '}' l r3 hr3 h.head)
     intro _ r4 hr4 _
     dsimp only
-    exact Safe.ok hr4 trivial
+    exact Safe.ok hr4 ⟨h.head, hes⟩
   · -- impl
     rename_i l r
     apply Safe.bind (expectIdent_safe l r h.tail h.head)
@@ -507,7 +550,7 @@ theorem parseDecl_safe {N : Nat} (last : Nat) (ts : List LTok) (h : LinesOk N ts
     have hr4 := skipKw_ok "as" hr3 (N := N)
     generalize skipKw "as" r3 = r4 at hr4 ⊢
     have key : ∀ (nm : Option String) (r5 : List LTok), LinesOk N r5 →
-        Safe N (fun _ => True) (do
+        Safe N (DeclOk N) (do
           let (_, r6) ← expectSym '{' l r5
           let (is, r7) ← parseImplItems (2 * r6.length + 2) (r6.length + 1) l r6
           if is.isEmpty then (.error ⟨"impl needs a field", lineOf r7 l⟩ : Except SynErr (PDecl × List LTok)) else
@@ -545,14 +588,14 @@ theorem parseDecl_safe {N : Nat} (last : Nat) (ts : List LTok) (h : LinesOk N ts
     intro _ r4 hr4 _
     dsimp only
     apply Safe.bind (parseMethods_safe _ l r4 hr4 h.head)
-    intro ms r5 hr5 _
+    intro ms r5 hr5 hms
     dsimp only
     split
     · exact Safe.error (lineOf_ok hr5 h.head)
     · apply Safe.bind (expectSym_safe '}' l r5 hr5 h.head)
       intro _ r6 hr6 _
       dsimp only
-      exact Safe.ok hr6 trivial
+      exact Safe.ok hr6 ⟨h.head, hms⟩
   · -- device
     rename_i l r
     apply Safe.bind (expectIdent_safe l r h.tail h.head)
@@ -578,7 +621,7 @@ theorem parseDecl_safe {N : Nat} (last : Nat) (ts : List LTok) (h : LinesOk N ts
     apply Safe.bind (expectSym_safe ';' l r1 hr1 h.head)
     intro _ r2 hr2 _
     dsimp only
-    exact Safe.ok hr2 trivial
+    exact Safe.ok hr2 h.head
   · exact Safe.error (lineOf_ok h hl)
 
 theorem parseDecls_lines {N : Nat} : ∀ (g last : Nat) (ts : List LTok), LinesOk N ts → InB N last →
@@ -669,5 +712,81 @@ theorem parseText_lines (src : String) (e : SynErr) (he : parseText src = .error
     rw [hl] at he
     simp only [bind, Except.bind] at he
     exact parseFile_lines ts (fun t ht => hok ts hl t ht) (by omega) e he
+
+/-! ### success: the lines kept in the parsed file exist in the source -/
+
+theorem parseDecls_ok {N : Nat} : ∀ (g last : Nat) (ts : List LTok), LinesOk N ts → InB N last →
+    ∀ ds, parseDecls g last ts = .ok ds → ∀ d ∈ ds, DeclOk N d := by
+  intro g
+  induction g with
+  | zero => intro last ts h hl ds he; simp [parseDecls] at he
+  | succ g ih =>
+    intro last ts h hl ds he
+    cases ts with
+    | nil => simp [parseDecls] at he; subst he; simp
+    | cons t r =>
+      simp only [parseDecls, bind, Except.bind] at he
+      have hs := parseDecl_safe last (t :: r) h hl
+      cases hd : parseDecl last (t :: r) with
+      | error e' => rw [hd] at he; cases he
+      | ok p =>
+        obtain ⟨d, r'⟩ := p
+        rw [hd] at he
+        simp only at he
+        obtain ⟨hr', hdok⟩ := hs.2 d r' hd
+        cases hds : parseDecls g (lineOf (t :: r) last) r' with
+        | error e'' => rw [hds] at he; cases he
+        | ok ds' =>
+          rw [hds] at he
+          simp only [Except.ok.injEq] at he
+          subst he
+          intro x hx
+          rcases List.mem_cons.mp hx with rfl | hx
+          · exact hdok
+          · exact ih _ r' hr' (lineOf_ok h hl) ds' hds x hx
+
+theorem parseFile_ok {N : Nat} (ts : List LTok) (h : LinesOk N ts) (hN : 1 ≤ N) (pf : PFile)
+    (he : parseFile ts = .ok pf) : FileOk N pf := by
+  unfold parseFile at he
+  have h1 : InB N 1 := ⟨Nat.le_refl 1, hN⟩
+  have s1 := expectKw_safe "version" 1 ts h h1
+  cases hk : expectKw "version" 1 ts with
+  | error e' => rw [hk] at he; simp [bind, Except.bind] at he
+  | ok p =>
+    obtain ⟨l, r0⟩ := p
+    obtain ⟨hr0, hlb⟩ := s1.2 l r0 hk
+    rw [hk] at he
+    simp only [bind, Except.bind] at he
+    have s2 := expectSym_safe ':' l r0 hr0 hlb
+    cases hc : expectSym ':' l r0 with
+    | error e' => rw [hc] at he; cases he
+    | ok q =>
+      obtain ⟨u, r1⟩ := q
+      have hr1 := (s2.2 u r1 hc).1
+      rw [hc] at he
+      simp only at he
+      split at he
+      · rename_i s ls r2
+        cases hds : parseDecls (r2.length + 1) l r2 with
+        | error e'' => rw [hds] at he; cases he
+        | ok ds =>
+          rw [hds] at he
+          simp only [Except.ok.injEq] at he
+          subst he
+          exact ⟨hlb, parseDecls_ok _ l r2 hr1.tail hlb ds hds⟩
+      · cases he
+
+/-- **every line kept in a parsed file exists in the source** (version line, declaration lines,
+field lines, lines of type names, enumerator and method lines, `mod` lines) -/
+theorem parseText_ok (src : String) (pf : PFile) (he : parseText src = .ok pf) :
+    FileOk (1 + nl src.toList) pf := by
+  unfold parseText at he
+  obtain ⟨hok, _⟩ := lex_lines src
+  cases hl : lex src with
+  | error e' => rw [hl] at he; simp [bind, Except.bind] at he
+  | ok ts =>
+    rw [hl] at he
+    simp only [bind, Except.bind] at he
+    exact parseFile_ok ts (fun t ht => hok ts hl t ht) (by omega) pf he
 
 end Fcp.Syntax
